@@ -41,7 +41,7 @@ def gen_key(rng):
         return ["tuple", items]
     if r < 0.92:
         return ["call", rng.choice(["T", "F", "D"])]
-    return ["other", rng.choice(["float", "none", "bytes", "rec", "list"])]
+    return ["other", rng.choice(["float", "none", "bytes", "rec", "list", "pathexpr", "pathpred"])]
 
 
 def gen_builder(rng):
